@@ -149,6 +149,11 @@ def custom(ctx):
     tmpd = os.path.join(work, "tmp")
     os.makedirs(tmpd)
     env["TMPDIR"] = tmpd
+    # environment variables that name files, directories, commands and addresses: executing a filter (`env`, `$ENV`, anything
+    # else) must not follow them
+    env.update({"JAQ_TOKEN_FILE": secret, "SECRET_FILE": secret, "PASSWORD_FILE": secret, "CONFIG_PATH": secret, "JAQ_CONFIG": secret, "JAQ_LIB_DIR": lib,
+                "JAQ_INIT": secret, "JAQRC": secret, "ENV_FILE": secret, "PAGER": "touch " + canary, "EDITOR": "touch " + canary, "BROWSER": "touch " + canary,
+                "SHELL_CMD": "touch " + canary, "http_proxy": "http://127.0.0.1:1/", "JAQ_URL": "http://127.0.0.1:1/x"})
 
     def subst(x):
         if isinstance(x, bytes):
@@ -187,6 +192,18 @@ def custom(ctx):
             if small:
                 prog = "%s as $q | ($q[:7] + $q[-2:]) as $p | $p[] as $i | %s(try ([limit(3; $i | %s)] | empty) catch empty)" % (lit, binds, t)
             jobs.append((label, [J, "-n", prog], b"", set(), prog))
+    # errors and halts that leave the program uncaught, carrying values that name files, lines, commands and addresses: reporting them
+    # must not look anything up (the values come from the filter or the data)
+    evals = keep[:8] + [{"file": secret, "line": 1}, {"file": secret, "line": 1, "column": 1}, {"path": secret}, {"filename": secret, "lineno": 1}, {"source": secret},
+                        {"cmd": "touch " + canary}, {"url": "http://127.0.0.1:1/x"}, {"include": secret}, {"import": secret}, [secret, 1], {"file": canary, "line": 1}]
+    for ev in evals:
+        for tmpl in ("%s | error", "error(%s)", "%s | halt_error", "%s | halt_error(1)", "%s | error(.)", "try error(%s) catch error", ". as $x | %s | error", "%s as $e | [1] | .[0] | error($e)",
+                     "def f: error(%s); f", "%s | tojson | error", "label $l | error(%s)", "%s | (.file? // .) | error", "first(error(%s), 1)", "%s | env | error", "%s | $ENV | .PAGER | error"):
+            prog = tmpl % json.dumps(ev)
+            jobs.append(("uncaught-error", [J, "-n", prog], b"", set(), prog))
+    for prog in ("env | keys | length", "$ENV | keys | length", "env.SECRET_FILE", "$ENV.JAQ_TOKEN_FILE", "env | .[]", "[env[] | tostring] | length", "env.PAGER", "$ENV.EDITOR | tostring",
+                 "env | to_entries | map(.value) | length", "env | with_entries(select(.key | endswith(\"_FILE\")))", "$ENV | .CONFIG_PATH"):
+        jobs.append(("environment", [J, "-n", prog], b"", set(), prog))
     # the filters the command-line program registers itself: every one (but the interactive `repl`) on every string of the pool
     known = set(lbl.split(" ")[1] for _, _, _, lbl in c05.callables())
     for path_ in glob.glob("/repo/jaq/src/*.rs"):
